@@ -390,7 +390,7 @@ package syncer
 //@   properties C20
 //@   ghost var probedB mathint = 0 - 1
 //@   ghost var policyB string
-//@   requires nonnil: ro != nil && conn != nil && state != nil
+//@   requires nonnil [C20]: ro != nil && conn != nil && state != nil
 //@   modifies heap, probedB, policyB, reqs, lastCmd, lastNArgs, lastA1, lastA2, lastA3, lastA4, lastReply, nDel, nPexpire
 //@   set probedB = ite(exists, 1, 0) after store exists
 //@   set policyB = ro.cfg.KeyExists after store exists
